@@ -69,16 +69,16 @@ func (x sp) drawContRepr() int {
 	g := rapid.IntRange(0, 11).Draw(t, "generic")
 	switch {
 	case g <= 2, g <= 5 && !x.structs:
-		return 0
+		return drawHigh(t, false) &^ boxBit
 	case g <= 8:
 		return drawStructRepr(t)
 	}
-	return rapid.IntRange(0, 63).Draw(t, "repr")
+	return rapid.IntRange(0, 63).Draw(t, "repr") | drawHigh(t, false)
 }
 
 func drawStructRepr(t *rapid.T) int {
 	// (typed fields and pointer levels multiply the length of the type names, which reflect keeps for ever)
-	return rapid.SampledFrom([]int{2, 7, 2, 10, 7, 15}).Draw(t, "struct") + 16*rapid.SampledFrom([]int{0, 0, 2, 0, 3}).Draw(t, "ptr") + 64*drawLayout(t)
+	return rapid.SampledFrom([]int{2, 7, 2, 10, 7, 15}).Draw(t, "struct") + 16*rapid.SampledFrom([]int{0, 0, 2, 0, 3}).Draw(t, "ptr") + 64*drawLayout(t) + drawHigh(t, true)&^boxBit
 }
 
 // drawLayout draws the layout bits of a struct representation (see layoutOf).
@@ -132,7 +132,7 @@ func (x sp) spellVal(v *gen.Tree) *gen.Tree {
 		return x.spellObj(v, nil)
 	case "list":
 		l := gen.List()
-		l.R = v.R
+		l.R = v.R | drawHigh(t, false)
 		for _, e := range v.Vals {
 			l.Vals = append(l.Vals, x.spellVal(e))
 		}
@@ -140,9 +140,10 @@ func (x sp) spellVal(v *gen.Tree) *gen.Tree {
 	}
 	c := v.Clone()
 	if c.K != "nil" {
-		c.R = rapid.IntRange(0, 63).Draw(t, "primrepr")
+		c.R = drawPrimRepr(t, c)
 	} else {
-		c.R = rapid.IntRange(0, 1).Draw(t, "nilrepr")
+		// (nil pointers only: a nil map or slice is an empty container, not a nil value)
+		c.R = rapid.IntRange(0, 1).Draw(t, "nilrepr") + 4*rapid.IntRange(0, 3).Draw(t, "nilptr") | drawHigh(t, false)
 	}
 	return c
 }
@@ -374,6 +375,7 @@ func genFlatWith(t *rapid.T, o OptSet, plant, structs bool) FlatCase {
 	}
 	x := sp{t: t, sep: c.O.Sep, structs: structs}
 	tree := x.genNested(cfg, cfg.Depth)
+	enrich(t, tree)
 	if plant && rapid.IntRange(0, 2).Draw(t, "deepen") == 0 {
 		tree = gen.Obj().Put(rapid.SampledFrom([]string{"a", "b", "w"}).Draw(t, "wrapkey"), tree)
 	}
